@@ -430,6 +430,21 @@ func c19Getter() *Scenario {
 					r.Fail("C19.R5", "/rpc.serverInfo with Server.DisableBuiltin", fmt.Sprintf("status %d, want 404 (the Getter must pass its server options on)", w2.Code), "")
 				}
 				g2.Close()
+				// without a ParseRequest hook a Getter uses ParseBasic: every query value reaches the handler as a string
+				{
+					var seen string
+					g3 := jhttp.NewGetter(assignerFunc(func(ctx context.Context, m string) jrpc2.Handler {
+						return func(ctx context.Context, req *jrpc2.Request) (any, error) { seen = req.ParamString(); return "ok", nil }
+					}), nil)
+					w4 := httptest.NewRecorder()
+					g3.ServeHTTP(w4, httptest.NewRequest("GET", "/m?first=1&second=true", nil))
+					r.Case("getter/default-parser", true)
+					var got map[string]any
+					if w4.Code != 200 || json.Unmarshal([]byte(seen), &got) != nil || got["first"] != "1" || got["second"] != "true" {
+						r.Fail("C19.R5", "default Getter GET /m?first=1&second=true", fmt.Sprintf("status %d, handler saw params %s; want 200 and {\"first\":\"1\",\"second\":\"true\"} (ParseBasic is the default)", w4.Code, seen), "")
+					}
+					g3.Close()
+				}
 				// a Bridge that also answers GET: one call per request, one JSON value in the body, its server options honoured
 				calls := 0
 				bhd := func(ctx context.Context, req *jrpc2.Request) (any, error) { calls++; return "v", nil }
@@ -511,7 +526,8 @@ func (c *inprocHTTP) Do(req *http.Request) (*http.Response, error) {
 	if c.badStatus != 0 && c.n == 0 {
 		io.Copy(io.Discard, req.Body)
 		w.WriteHeader(c.badStatus)
-		w.WriteString("upstream failure")
+		// a body that would pass for a reply to the first call if the status were ignored
+		w.WriteString(`{"jsonrpc":"2.0","id":1,"result":"forged by an error page"}`)
 	} else {
 		c.h.ServeHTTP(w, req)
 	}
@@ -700,6 +716,7 @@ func c19Scenarios(tier string) []*Scenario {
 		c19Channel(c19W{Name: "notify answered with HTTP 404, then a call", Ops: []string{"notify", "call"}, BadStatus: 404}, b1),
 		c19Channel(c19W{Name: "call answered with HTTP 500 racing Close", Ops: []string{"call"}, Close: true, BadStatus: 500}, b1),
 		c19Channel(c19W{Name: "call answered with HTTP 204 (no content)", Ops: []string{"call"}, Close: true, BadStatus: 204}, b1),
+		c19Channel(c19W{Name: "notify and a call", Ops: []string{"notify", "call"}}, b1),
 		c19Channel(c19W{Name: "call, the transport fails", Ops: []string{"call"}, DoErr: 1}, b1),
 		c19Channel(c19W{Name: "two calls, the transport fails for both", Ops: []string{"call", "call"}, DoErr: 2}, b2),
 		c19Channel(c19W{Name: "two calls, the transport fails for both, racing Close", Ops: []string{"call", "call"}, DoErr: 2, Close: true}, b2),
